@@ -87,6 +87,7 @@ func loadSites(path string) *Sites {
 	if err := json.Unmarshal(b, s); err != nil {
 		fail2("site table: %v", err)
 	}
+	nsitesGlobal = len(s.Sites)
 	return s
 }
 
@@ -189,6 +190,10 @@ type runOut struct {
 
 var fixCache = map[uint64]*Fix{}
 
+// nsitesGlobal: size of the site table (set once it is loaded); library calls the
+// harness makes outside the runs proper go through simsched.RunAlone
+var nsitesGlobal int
+
 func fixturesFor(seed uint64) *Fix {
 	if f, ok := fixCache[seed]; ok {
 		return f
@@ -197,7 +202,8 @@ func fixturesFor(seed uint64) *Fix {
 		fixCache = map[uint64]*Fix{}
 	}
 	entropy.reset(seed)
-	f := buildFixtures(seed)
+	var f *Fix
+	simsched.RunAlone(nsitesGlobal, func() { f = buildFixtures(seed) })
 	fixCache[seed] = f
 	return f
 }
@@ -211,13 +217,15 @@ func (f *Fix) makeDilRun() {
 	if len(f.Dil) == 0 {
 		return
 	}
-	for i := 4; i < 6; i++ {
-		d, err := dilithium.NewDilithiumFromSeed(f.Seeds[i])
-		if err != nil {
-			panic(err)
+	simsched.RunAlone(nsitesGlobal, func() {
+		for i := 4; i < 6; i++ {
+			d, err := dilithium.NewDilithiumFromSeed(f.Seeds[i])
+			if err != nil {
+				panic(err)
+			}
+			f.DilRun = append(f.DilRun, d)
 		}
-		f.DilRun = append(f.DilRun, d)
-	}
+	})
 }
 
 // stepLimit bounds the yields of the next run (logical steps, not wall-clock):
@@ -683,7 +691,12 @@ func main() {
 		seed, _ := strconv.ParseUint(os.Args[2], 10, 64)
 		rand.Reader = entropy
 		entropy.reset(seed)
-		b, _ := json.Marshal(buildFixtures(seed).data())
+		if len(os.Args) > 4 {
+			loadSites(os.Args[4])
+		}
+		var fx *Fix
+		simsched.RunAlone(nsitesGlobal, func() { fx = buildFixtures(seed) })
+		b, _ := json.Marshal(fx.data())
 		if err := os.WriteFile(os.Args[3], b, 0o644); err != nil {
 			fail2("%v", err)
 		}
